@@ -576,6 +576,28 @@ def run_slin_job(job, scratch):
             "states": st["distinct"], "transitions": st["generated"], "tdrv": tdrv, "ttlc": st["wall"], "sample": sample}
 
 
+def server_died(p, trace):
+    """The driver process died of a panic in a goroutine of the server under test (a background thread of go-nfsd: no
+    frame of the harness on the panicking goroutine's stack; panics inside an RPC are recovered by the driver itself).
+    That is behaviour of the real code, not of the machinery: the trace recorded so far gets a final 'fatal' event."""
+    err = p.stderr or ""
+    i = err.find("panic: ")
+    if p.returncode != 2 or i < 0 or not os.path.exists(trace):
+        return False
+    stack = err[i:]
+    if "verif/harness" in stack or "github.com/mit-pdos/go-nfsd/" not in stack:
+        return False
+    with open(trace, "rb") as f:
+        data = f.read()
+    data = data[:data.rfind(b"\n") + 1]
+    what = stack.split("\n\n")[0].strip()[:200]
+    m = re.search(r"\n(github.com/mit-pdos/go-nfsd/[^\n]+)\(", stack)
+    ev = {"ev": "fatal", "what": "a thread of the server panicked (%s) in %s: the server process died" % (what, m.group(1) if m else "?")}
+    with open(trace, "wb") as f:
+        f.write(data + (json.dumps(ev, separators=(",", ":")) + "\n").encode())
+    return True
+
+
 def run_job(job, scratch):
     """job: {name, driver: [args...], module, cfg}. Returns result dict."""
     if job.get("kind") == "mbt":
@@ -599,7 +621,7 @@ def run_job(job, scratch):
         p = subprocess.run(cmd, capture_output=True, text=True, timeout=job.get("driver_timeout", 900), cwd=scratch)
     except subprocess.TimeoutExpired:
         raise Infra("driver timed out: " + " ".join(cmd))
-    if p.returncode != 0:
+    if p.returncode != 0 and not server_died(p, trace):
         raise Infra("driver failed (%d): %s\n%s" % (p.returncode, " ".join(cmd), (p.stdout + p.stderr)[-3000:]))
     tdrv = time.time() - t0
     out, st = run_tlc(job["module"], job["cfg"], scratch, env={"TRACE": trace}, timeout=job.get("tlc_timeout", 1200),
@@ -872,6 +894,11 @@ def plan(prop, tier, seed, known):
         jobs += design_jobs("Shrink", ["Shrink", "Shrink_all"], ["Shrink_big"], [("Shrink_reset", "NoOrphan"), ("Shrink_noresult", "Reclaimed")], q)
         jobs += design_jobs("AllocTxn", ["AllocTxn"], [], [("AllocTxn_byte", "NeverTwice")], q)
         jobs += design_jobs("BlockMap", ["BlockMap"], ["BlockMap_big", "BlockMap_all"], [("BlockMap_noundo", "Covered")], q)
+        # room accounting of the freeing transactions: every placement of a file's blocks over the bitmap areas (real constants), the
+        # original condition as negative control, and the real transactions' sizes against the model
+        jobs += design_jobs("TxnFit", ["TxnFit_real"], ["TxnFit", "TxnFit_real8", "TxnFit_real_two2"], [("TxnFit_real_two", "Fits")] + ([] if q else [("TxnFit_two", "Fits")]), q)
+        jobs.append({"name": "txnfit", "module": "TxnFitTrace.tla", "cfg": "TxnFitTrace.cfg", "driver_timeout": 1800, "tlc_timeout": 1800,
+                     "driver": ["txnfit", "-seed", str(seed), "-steps", "50" if q else "500"]})
         for i in range(1 if q else 8):   # the real block map against that model: writes, short writes and truncations with exact free space
             jobs.append({"name": "bmap%d" % i, "module": "NfsTrace.tla", "cfg": "NfsTrace.cfg", "also_modules": ["BlockMapTrace"],
                          "driver": ["bmap", "-seed", str(seed * 100 + i), "-steps", "80" if q else "400"]})
@@ -1016,12 +1043,14 @@ def plan(prop, tier, seed, known):
         if q:
             rs = sorted(set(rnd.randrange(1540, 3 * NB + 2000) for _ in range(300)))
             chunks = ["1530-1600,32760-32776,65530-65545,98296-98312", ",".join(str(x) for x in rs[:150]), ",".join(str(x) for x in rs[150:])]
-            fills = ["1541,1546,1557,2003", "", "%d" % rs[10]]
+            # every size at which the free blocks run out in front of an index block (the indirect block after 8 direct
+            # blocks, the double-indirect block after 8 + 512, its first child) is in these dense ranges
+            fills = ["1541-1560,2003,2058-2066", "", "%d" % rs[10]]
         else:
             lo, hi, n = 1530, 3 * NB + 2000, 16
             step = (hi - lo) // n + 1
             chunks = ["%d-%d" % (lo + i * step, min(hi, lo + (i + 1) * step - 1)) for i in range(n)]
-            fl = [1541, 1546, 1557, 2003, 5000, 20001, NB - 1, NB, NB + 1, NB + 7, 2 * NB + 3, 3 * NB + 1001]
+            fl = list(range(1541, 1600)) + list(range(2050, 2080)) + list(range(2570, 2582)) + [2003, 3089, 3090, 5000, 20001, NB - 1, NB, NB + 1, NB + 7, 2 * NB + 3, 3 * NB + 1001]
             fills = [",".join(str(f) for f in fl if lo + i * step <= f <= lo + (i + 1) * step - 1) for i in range(n)]
         for i, ch in enumerate(chunks):
             jobs.append({"name": "layout%d" % i, "module": "NfsTrace.tla", "cfg": "NfsTrace.cfg", "driver_timeout": 3000, "tlc_timeout": 3000,
